@@ -27,7 +27,7 @@ def config():
 def make_item(it, flip, transformed):
     """Build a result object for item `it`; `transformed` selects the optimizer-domain twin."""
     if it["kind"] == "G":
-        return GradientResults(batch_id=it["id"], metadata={}, realizations=Realizations(failed_realizations=np.array([False])),
+        return GradientResults(batch_id=it["id"], metadata={"domain": "optimizer" if transformed else "user"}, realizations=Realizations(failed_realizations=np.array([False])),
                                evaluations=GradientEvaluations.create(np.zeros(1), np.zeros((1, 1, 1)), np.zeros((1, 1, 1))),
                                gradients=None)
     obj = float("nan") if it["nan"] else float(it["obj"])
@@ -38,7 +38,8 @@ def make_item(it, flip, transformed):
         functions = Functions.create(weighted_objective=np.array(obj), objectives=np.array([obj]))
     viol = 0.0 if it["feas_raw"] else 1.0
     return FunctionResults(
-        batch_id=it["id"], metadata={}, realizations=Realizations(failed_realizations=np.array([False])),
+        batch_id=it["id"], metadata={"domain": "optimizer" if transformed else "user"},
+        realizations=Realizations(failed_realizations=np.array([False])),
         evaluations=FunctionEvaluations.create(np.zeros(1), np.array([[obj]])),
         functions=functions,
         constraint_info=ConstraintInfo(bound_lower=np.array([-viol]), bound_upper=np.array([-20.0])))
@@ -63,7 +64,9 @@ def drive(sc):
         eff = [{k: it[k] for k in ("id", "kind", "hasfun", "obj", "nan")} | {"feas": bool(it["feas"] or par["tolnone"])}
                for it in ev["items"]]
         trace.append({"ev": "Event", "what": par["what"], "flip": bool(par["flip"]), "src": ev["src"], "items": eff,
-                      "kept": 0 if kept is None else int(kept.batch_id)})
+                      "kept": 0 if kept is None else int(kept.batch_id),
+                      # what a handler hands out is the result the USER sees, never its optimizer-domain twin
+                      "keptuser": bool(kept is None or kept.metadata.get("domain") == "user")})
     last_id = sc["events"][-1]["items"][-1]["id"]
     final = trace[-1]["kept"]
     return trace, {"nontrivial": bool(final != 0 and final != last_id), "key": str(sc), "flip": bool(par["flip"]),
@@ -133,7 +136,7 @@ def drive_real(sc):
                               "nan": nan or not hasfun, "feas": feas})
             else:
                 items.append({"id": k, "kind": "G", "hasfun": False, "obj": 0, "nan": True, "feas": True})
-        trace.append({"ev": "Event", "what": "best", "flip": False, "src": "tracked", "items": items, "kept": -1})
+        trace.append({"ev": "Event", "what": "best", "flip": False, "src": "tracked", "items": items, "kept": -1, "keptuser": True})
     # only the final state is observable through BasicOptimizer: judge the last event, mark the others as unobserved
     final = 0 if opt.results is None else ids.get(id(opt.results), -2)
     out = []
